@@ -5,6 +5,7 @@ CONSTANTS
   KeepHist = TRUE
   GrowLen = 90
   AscSizes = {}
+  Mut = {}
   BatchPct = 35
   GenLen = 220
 SPECIFICATION GenSpec
